@@ -70,6 +70,9 @@ struct Case {
   pin_event: Option<Ev>,
   pin_post: Vec<Ev>,
   pin_ms: u64,
+  /// name of a file appender whose file is a FIFO read slowly (1 KiB per 25 ms) once shutdown has
+  /// begun: flushing the backlog then takes seconds, yet nothing accepted may be lost
+  slow_sink: Option<String>,
 }
 
 // ------------------------------------------------------------------------------------------
@@ -120,7 +123,40 @@ fn expected_appenders(case: &Case, target: &str, level: u8) -> (BTreeSet<String>
 // ------------------------------------------------------------------------------------------
 // generation
 
+/// Backlog flushed through a slow sink at shutdown: one file appender on a FIFO, a root logger that
+/// admits everything, 2 threads x ~3300 events (a few hundred KB), shutdown() after the emitters finished.
+fn gen_slow_sink_case(rng: &mut Rng) -> Case {
+  let appenders = vec![AppenderSpec { name: "f0".into(), kind: "file".into(), encoder: "pattern".into(), capacity: 8192 }];
+  let loggers = vec![LoggerSpec { name: "root".into(), level: 5, appenders: vec!["f0".into()], additive: true, additive_explicit: false }];
+  let threads = 2;
+  let combos: Vec<(usize, u8)> = (0..4).map(|_| (rng.below(TARGETS.len() as u64) as usize, rng.range(1, 5) as u8)).collect();
+  let mut id = 0u64;
+  let mut probes = Vec::new();
+  let mut seen = HashSet::new();
+  for &(t, l) in &combos {
+    for tr in [false, true] {
+      if seen.insert((t, l, tr)) {
+        probes.push(Ev { id, thread: 99, target: t, level: l, tracing: tr, probe: true });
+        id += 1;
+      }
+    }
+  }
+  let mut events = Vec::new();
+  for _ in 0..rng.range(6000, 7200) {
+    let &(t, l) = rng.pick(&combos);
+    events.push(Ev { id, thread: rng.below(threads), target: t, level: l, tracing: rng.chance(1, 2), probe: false });
+    id += 1;
+  }
+  Case {
+    appenders, loggers, has_root: true, threads, probes, events, pre_init: false, how: "shutdown".into(), while_running: false,
+    wait_threads: vec![], chaos: "off".into(), seed: rng.next(), pin_event: None, pin_post: vec![], pin_ms: 0, slow_sink: Some("f0".into()),
+  }
+}
+
 fn gen_case(rng: &mut Rng, focus: &str) -> Case {
+  if focus == "slow-sink" {
+    return gen_slow_sink_case(rng);
+  }
   let n_app = rng.range(1, 4) as usize;
   let mut appenders = Vec::new();
   for i in 0..n_app {
@@ -257,6 +293,7 @@ fn gen_case(rng: &mut Rng, focus: &str) -> Case {
     pin_event,
     pin_post,
     pin_ms,
+    slow_sink: None,
   }
 }
 
@@ -267,7 +304,9 @@ fn yaml_of(case: &Case, dir: &Path) -> String {
     if a.kind == "custom" {
       y.push_str(&format!("    kind: custom\n    buffer_size: {}\n    overflow: block\n", a.capacity));
     } else {
-      y.push_str(&format!("    kind: file\n    path: \"{}\"\n    channel_capacity: {}\n    overflow: block\n", dir.join(format!("{}.out", a.name)).display(), a.capacity));
+      // a slow sink is a FIFO; the child copies what it reads from it into `<name>.out`
+      let file = if case.slow_sink.as_deref() == Some(a.name.as_str()) { format!("{}.fifo", a.name) } else { format!("{}.out", a.name) };
+      y.push_str(&format!("    kind: file\n    path: \"{}\"\n    channel_capacity: {}\n    overflow: block\n", dir.join(file).display(), a.capacity));
       match a.encoder.as_str() {
         "json" => y.push_str("    encoder:\n      kind: json_lines\n"),
         "json_flat" => y.push_str("    encoder:\n      kind: json_lines\n      flatten_fields: true\n"),
@@ -298,7 +337,7 @@ fn case_json(case: &Case) -> Value {
     "threads": case.threads, "probes": case.probes.iter().map(ev_json).collect::<Vec<_>>(),
     "events": case.events.iter().map(ev_json).collect::<Vec<_>>(), "pre_init": case.pre_init,
     "shutdown": {"how": case.how, "mode": if case.while_running { "while-running" } else { "after-join" }, "wait_threads": case.wait_threads},
-    "chaos": case.chaos, "seed": case.seed,
+    "chaos": case.chaos, "seed": case.seed, "slow_sink": case.slow_sink,
     "pin": {"event": case.pin_event.as_ref().map(ev_json), "post": case.pin_post.iter().map(ev_json).collect::<Vec<_>>(), "stall_ms": case.pin_ms},
     // change points are drawn from the first `horizon` synchronisation steps of a thread: about
     // a dozen steps per emitted event
